@@ -184,6 +184,93 @@ def strategy(draw):
     return {"spec": spec, "table": base["table"], "opts": opts}
 
 
+# ------------------------------------------------------------------ parsing applies to the whole of D
+
+
+@st.composite
+def strat_parsing(draw):
+    """Pairs whose schema parses (coercion, defaults, added / filtered columns, custom parsers) with row-selection options."""
+    case = draw(gen.parser_case())
+    if case["spec"].get("drop_invalid_rows"):
+        case["spec"]["drop_invalid_rows"] = False
+    n = sp.table_nrows(case["table"])
+    which = draw(st.integers(0, 4))
+    opts = {"head": None, "tail": None, "sample": None, "random_state": None}
+    if which in (0, 3):
+        opts["head"] = draw(st.integers(0, n))
+    if which in (1, 3):
+        opts["tail"] = draw(st.integers(0, n))
+    if which in (2, 4):
+        opts["sample"] = draw(st.integers(0, n))
+        opts["random_state"] = draw(st.integers(0, 50))
+    if which == 4:
+        opts["head"] = draw(st.integers(0, n))
+    case["opts"] = opts
+    return case
+
+
+def eval_parsing(case):
+    """Metamorphic: when validate(D) and validate(D, head/tail/sample) both return, they return the same object - the
+    whole of D, parsed - because the options only select which rows the row-level checks look at."""
+    ev = Eval()
+    spec, table = case["spec"], case["table"]
+    schema = sp.pandas_schema(spec)
+    series = spec.get("kind") == "series"
+    kw = call_kwargs(case["opts"])
+    lazy = bool(case.get("lazy"))
+    ev.labels += ["parsing:kind=" + spec.get("kind", "dataframe")] + ["parsing:op=" + o for o in sorted(set(case.get("parser_ops", [])))]
+    ev.labels += ["parsing:opt=" + k for k in sorted(kw) if k != "random_state"]
+    outs = []
+    for k in ({}, kw):
+        data = sp.pandas_series(table) if series else sp.pandas_frame(table)
+        o = fp.outcome(lambda: schema.validate(data, lazy=lazy, **k))
+        outs.append(o)
+    full, sub = outs
+    ev.labels.append("parsing:full=" + full["kind"])
+    ev.labels.append("parsing:sub=" + sub["kind"])
+    if full["kind"] != "ok" or sub["kind"] != "ok":
+        if full["kind"] == "ok" and sub["kind"] in ("SchemaError", "SchemaErrors") and not _has_aggregate_check(spec):
+            # every row conforms, so does every selection of rows (checks on a column as a whole apart)
+            ev.add("subsample-rejects-what-full-validation-accepts", {"opts": kw, "reasons": sub.get("reasons")})
+        return ev
+    ev.nontrivial = bool(case.get("parser_ops")) and bool(kw)
+    a, b = fp.snapshot(full["value"]), fp.snapshot(sub["value"])
+    if a != b:
+        cols = None
+        try:  # which columns differ (same labels on both sides)
+            import pandas as pd
+
+            fa, fb = full["value"], sub["value"]
+            if isinstance(fa, pd.DataFrame) and isinstance(fb, pd.DataFrame) and list(fa.columns) == list(fb.columns) \
+                    and fa.columns.is_unique and len(fa) == len(fb):
+                cols = [str(c) for c in fa.columns if fp.snapshot(fa[c].reset_index(drop=True)) != fp.snapshot(fb[c].reset_index(drop=True))]
+                if fp.snapshot(fa.index.to_frame(index=False)) != fp.snapshot(fb.index.to_frame(index=False)):
+                    cols.append("<index>")
+        except Exception:  # noqa: BLE001
+            cols = None
+        ev.add("subsampled-validate-returns-differently-parsed-data", {"opts": kw, "ops": case.get("parser_ops"),
+                                                                       "differing_columns": cols, "diff": fp.fp_diff(a, b)[:4]})
+    return ev
+
+
+def _has_aggregate_check(spec):
+    comps = list(spec.get("columns", []))
+    ix = spec.get("index")
+    if ix:
+        comps += ix["multi"] if "multi" in ix else [ix]
+    return any(c["kind"] == "unique_values_eq" for comp in comps for c in comp.get("checks", [])) or \
+        any(c["kind"] == "unique_values_eq" for c in spec.get("checks", []))
+
+
+@known.finding("C20/pandas-column-level-parsers-skip-unselected-rows")
+def _kf_column_parsers(family, case, disc):
+    if family != "parsing" or disc.kind != "subsampled-validate-returns-differently-parsed-data":
+        return False
+    cols = (disc.detail or {}).get("differing_columns")
+    with_parsers = {str(c["name"]) for c in case["spec"]["columns"] if c.get("parsers")}
+    return bool(cols) and set(cols) <= with_parsers
+
+
 @known.finding("C20/pandas-subsample-dedups-by-index-label")
 def _kf_label_dedup(family, case, disc):
     ix = case["table"].get("index")
@@ -201,6 +288,11 @@ FAMILIES = [
 ]
 
 from . import plx  # noqa: E402
+
+FAMILIES.append(
+    Family("parsing", eval_parsing, strategy=strat_parsing, n_quick=700, n_thorough=3000, shards_quick=3,
+           shards_thorough=12, required_labels=["parsing:op=default", "parsing:op=coerce", "parsing:opt=head",
+                                                "parsing:opt=sample", "parsing:sub=ok"]))
 
 FAMILIES.append(
     Family("polars", plx.eval_c20, strategy=plx.strat_c20, n_quick=700, n_thorough=3000, shards_quick=3, shards_thorough=12,
